@@ -154,14 +154,33 @@ void TypedArgBase::assignValue( bool ignore_cardinality, const string& value,
             + "' has been replaced by '" + mReplacedBy + "'");
    } // end if
 
-   if (!ignore_cardinality && mpCardinality)
+   // values from an argument file or an environment variable do not count for
+   // the cardinality: this includes the second etc. value of a list, which is
+   // counted by assign()
+   std::unique_ptr< ICardinality>  cardinality_off;
+
+   if (ignore_cardinality)
+      cardinality_off.swap( mpCardinality);
+   else if (mpCardinality)
       mpCardinality->gotValue();
 
-   if (inverted && !mAllowsInverting)
-      throw std::runtime_error( "argument '" + format::toString( mKey)
-            + "' does not support invertion");
+   try
+   {
+      if (inverted && !mAllowsInverting)
+         throw std::runtime_error( "argument '" + format::toString( mKey)
+               + "' does not support invertion");
 
-   assign( value, inverted);
+      assign( value, inverted);
+   } catch (...)
+   {
+      if (ignore_cardinality)
+         cardinality_off.swap( mpCardinality);
+      throw;
+   } // end try
+
+   if (ignore_cardinality)
+      cardinality_off.swap( mpCardinality);
+
    activateConstraints();
 
 } // TypedArgBase::assignValue
